@@ -437,6 +437,46 @@ func generate(family string, rng *rand.Rand, thorough bool) []plan {
 				}
 			}
 		}
+		// fail-fast (Lift / LiftF) inside fork.Map / fork.FMap with SEVERAL failing elements: every worker that meets
+		// one sends its error with a plain `exx <- err` and returns. Nothing may block, leak or stay open - whether
+		// the errors are read (random schedules, drained) or nobody ever receives again (absent consumer + cancel).
+		for rep := 0; rep < 3*mul; rep++ {
+			for _, par := range []int{1, 2, 3, 4} {
+				for _, kind := range []string{"map", "fmap"} {
+					n := par + 1 + rng.Intn(4)
+					in := distinctInput(rng, n)
+					nbad := 1 + rng.Intn(par+1)
+					bad := append([]int(nil), in...)
+					rng.Shuffle(len(bad), func(i, j int) { bad[i], bad[j] = bad[j], bad[i] })
+					bad = bad[:min(nbad, len(bad))]
+					inner := &Stage{Kind: kind, A: 1, B: 0, M: 2, Fail: &Fail{Kind: "in", Xs: bad}, Try: false}
+					for _, gate := range []bool{true, false} {
+						s := &Stage{Kind: "fork", Par: par, Gate: gate, Inner: inner}
+						add(plan{stage: s, icaps: []int{rng.Intn(3)}, inputs: [][]int{in}, sched: rnd(4, 2, 3, rep%2, 4, 0, nil), maxMoves: 40, drain: true, gen: "failfast-random"})
+						// absent consumer: hand everything over, let every in-flight call complete, close, cancel - no receive
+						var sc []intent
+						for j := 0; j < n; j++ {
+							sc = append(sc, intent{kind: "send", i: 0})
+							if gate {
+								sc = append(sc, intent{kind: "release-any", i: rng.Intn(4)})
+							}
+						}
+						for j := 0; j < 2*n && gate; j++ {
+							sc = append(sc, intent{kind: "release-any", i: rng.Intn(4)})
+						}
+						if rng.Intn(2) == 0 {
+							sc = append(sc, intent{kind: "cancel"}, intent{kind: "close", i: 0})
+						} else {
+							sc = append(sc, intent{kind: "close", i: 0}, intent{kind: "cancel"})
+						}
+						for j := 0; j < 2*n && gate; j++ {
+							sc = append(sc, intent{kind: "release-any", i: rng.Intn(4)})
+						}
+						add(plan{stage: s, icaps: []int{n}, inputs: [][]int{in}, sched: &scripted{script: sc}, maxMoves: 80, drain: false, gen: "absent-consumer"})
+					}
+				}
+			}
+		}
 	case "C11":
 		for rep := 0; rep < 40*mul; rep++ {
 			freq := []int{1, 3, 10}[rng.Intn(3)]
@@ -463,6 +503,24 @@ func generate(family string, rng *rand.Rand, thorough bool) []plan {
 			}
 			ab = append(ab, intent{kind: "cancel"})
 			add(plan{stage: &Stage{Kind: "unfold", N: ucap, Seed: rng.Intn(5), A: 2, B: 1}, sched: &scripted{script: ab}, maxMoves: 10, drain: false, gen: "absent-consumer"})
+			// fail-fast (Lift) function failing at some point, nobody reading the error channel: the generator hands
+			// its error over with a plain send, returns and closes both channels - whatever the capacity - before
+			// or after the cancel
+			fk := rng.Intn(4)
+			var fb []intent
+			for j := 0; j < fk+2; j++ {
+				fb = append(fb, intent{kind: "recv", k: 0})
+			}
+			fb = append(fb, intent{kind: "cancel"})
+			useed := rng.Intn(5)
+			add(plan{stage: &Stage{Kind: "unfold", N: rng.Intn(3), Seed: useed, A: 1, B: 1, Fail: &Fail{Kind: "in", Xs: []int{useed + fk}}, Try: false}, sched: &scripted{script: fb}, maxMoves: 12, drain: false, gen: "absent-consumer"})
+			var gb []intent
+			for j := 0; j < fk+2; j++ {
+				gb = append(gb, intent{kind: "sleep", d: freq}, intent{kind: "recv", k: 0})
+			}
+			gcap := rng.Intn(3)
+			gb = append(gb, intent{kind: "cancel"}, intent{kind: "sleep", d: (gcap + 2) * freq})
+			add(plan{stage: &Stage{Kind: "emit", N: gcap, Freq: freq, A: 1, B: 0, Fail: &Fail{Kind: "in", Xs: []int{fk}}, Try: false}, sched: &scripted{script: gb}, maxMoves: 30, drain: false, gen: "absent-consumer"})
 			ecap := rng.Intn(3)
 			eb := []intent{{kind: "sleep", d: freq * rng.Intn(3)}}
 			for j := 0; j < rng.Intn(2); j++ {
@@ -473,12 +531,18 @@ func generate(family string, rng *rand.Rand, thorough bool) []plan {
 		}
 	case "C12":
 		for rep := 0; rep < 12*mul; rep++ {
-			for n := 0; n <= 4; n++ {
+			for n := 0; n <= 7; n++ {
+				if n > 4 && rep%3 != 0 {
+					continue // many inputs: fewer and shorter cases (any number of inputs, not only the tested 0..4)
+				}
 				icaps := make([]int, n)
 				inputs := make([][]int, n)
 				for i := range icaps {
 					icaps[i] = rng.Intn(3)
 					inputs[i] = anyInput(rng, rng.Intn(5))
+					if n > 4 {
+						inputs[i] = anyInput(rng, 1+rng.Intn(2))
+					}
 					for j := range inputs[i] {
 						inputs[i][j] = 100*i + j
 					}
